@@ -1274,3 +1274,163 @@ def c03_loop(rep, W, rule="C03.LOOP"):
                "the creation transaction is opened only when Server::add_version returned Err(NoSuchClient); offending: %s" % failing_vals(g, (bb, "T"), f)[:1],
                where(body, bb))
     rep.floor(rule, "creation-block txn sites", len(ncs), 1)
+
+
+# =========================================================================== C08 decision tables
+def av_kind(term):
+    if is_error_exit(term):
+        return "error"
+    mm = m(pat.adt("Result", "Ok", ("0", pat.tup(V("res"), ANY))), term)
+    if mm is None:
+        return "other"
+    if m(pat.adt("AddVersionResult", "ExpectedParentVersion", Ellipsis), mm["res"]) is not None:
+        return "reject"
+    if m(pat.adt("AddVersionResult", "Ok", Ellipsis), mm["res"]) is not None:
+        return "accept"
+    return "other"
+
+
+def gcv_kind(term):
+    if is_error_exit(term):
+        return "error"
+    mm = m(pat.adt("Result", "Ok", ("0", V("res"))), term)
+    if mm is None:
+        return "other"
+    r = mm["res"]
+    for k in ("Success", "NotFound", "Gone"):
+        if m(pat.adt("GetVersionResult", k, Ellipsis), r) is not None:
+            return k
+    return "other"
+
+
+def c08(rep, W, rule="C08"):
+    av = W.op("add_version")
+    gc = W.op("get_child_version")
+    cas = s_cas(rep, W)
+    if cas is None:
+        return
+    fn = short_fn(gc)
+    g = W.gea(gc)
+    pv = W.prov(gc)
+    tinfo = txn_term_of(W, gc)
+    if len(tinfo) != 1:
+        rep.fail(rule, (fn, "txn"), "cannot identify the single transaction of get_child_version", where(gc))
+        return
+    txn = tinfo[0][2]
+    client, _ = client_term(W, gc, txn)
+    if client is None:
+        rep.fail(rule, (fn, "client"), "get_child_version does not read the client record exactly once through its transaction", where(gc))
+        return
+    latest = ("field", client, "latest_version_id")
+    parent = ("param", 3, ANY)
+    a = find_eq_atom(g, latest, nil_const_pat())
+    b = find_eq_atom(g, latest, parent)
+    rep.ob(rule, (fn, "atom", "latest==NIL"), a is not None, "get_child_version compares client.latest_version_id with NIL_VERSION_ID", where(gc))
+    rep.ob(rule, (fn, "atom", "parent==latest"), b is not None, "get_child_version compares the requested parent with client.latest_version_id", where(gc))
+    lk = sites_of(gc, WD.tm("get_version_by_parent"))
+    if a is None or b is None or len(lk) != 1:
+        rep.fail(rule, (fn, "lookup"), "expected the two comparisons and exactly one get_version_by_parent lookup (found %d)" % len(lk), where(gc))
+        return
+    lkargs = pv.arg_terms(lk[0][0])
+    rep.ob(rule, (fn, "lookup", "args"), lkargs[0] == txn and m(parent, lkargs[1]) is not None,
+           "child lookup is get_version_by_parent(%s) on %s" % (P.show(lkargs[1]), P.show(lkargs[0])), where(gc, lk[0][0]))
+    rec = ("ok", ("ok", pv.def_term((lk[0][0], "T"))))
+    f = ("VARIANT", ("ok", pv.def_term((lk[0][0], "T"))))
+    accept = ("or", ("is", a, True), ("is", b, True))
+    reject = ("and", ("is", a, False), ("is", b, False))
+    kinds = exit_kinds(W, gc, gcv_kind)
+    seen_k = set()
+    for site, rt, val, kind in kinds:
+        seen_k.add(kind)
+        ln = exit_line(gc, site)
+        if kind == "Success":
+            mm = m(pat.adt("Result", "Ok", ("0", pat.adt("GetVersionResult", "Success", ("version_id", V("v")), ("parent_version_id", V("p")), ("history_segment", V("h"))))), rt)
+            okf = mm is not None and (mm["v"], mm["p"], mm["h"]) == (("field", rec, "version_id"), ("field", rec, "parent_version_id"), ("field", rec, "history_segment"))
+            rep.ob(rule, (fn, "i", "found-fields"), okf, "Success carries %s; must be the three fields of the looked-up record" % P.show(rt)[:200], where(gc, line=ln))
+            rep.ob(rule, (fn, "i", "found-iff-child"), G.ev(("is", f, "ok"), val) is True, "Success is returned only when a child exists", where(gc, line=ln))
+        elif kind == "NotFound":
+            rep.ob(rule, (fn, "i", "notfound-guard"), G.ev(("and", ("is", f, "err"), accept), val) is True,
+                   "NotFound is returned only when no child exists and (latest==NIL or parent==latest); valuation %s"
+                   % G.show_val({k: v for k, v in val.items() if k in (a, b, f)}), where(gc, line=ln))
+        elif kind == "Gone":
+            rep.ob(rule, (fn, "i", "gone-guard"), G.ev(("and", ("is", f, "err"), reject), val) is True,
+                   "Gone is returned only when no child exists and latest!=NIL and parent!=latest; valuation %s"
+                   % G.show_val({k: v for k, v in val.items() if k in (a, b, f)}), where(gc, line=ln))
+        elif kind == "other":
+            rep.fail(rule, (fn, "i", "unknown-outcome"), "non-error exit that is not Success/NotFound/Gone: %s" % P.show(rt)[:160], where(gc, line=ln))
+    for k in ("Success", "NotFound", "Gone"):
+        rep.ob(rule, (fn, "i", "outcome-present", k), k in seen_k, "outcome %s is %s" % (k, "produced" if k in seen_k else "never produced"), where(gc), nontrivial=False)
+    # (iii) exhaustive equivalence over the four assignments of (latest==NIL, parent==latest)
+    avk = exit_kinds(W, av, av_kind)
+    rows = []
+    for va in (True, False):
+        for vb in (True, False):
+            asg_av = {cas["a"]: va, cas["b"]: vb}
+            asg_gc = {a: va, b: vb, f: "err"}
+            k_av = sorted(set(k for _, _, val, k in avk if k != "error" and compatible(val, asg_av)))
+            k_gc = sorted(set(k for _, _, val, k in kinds if k != "error" and compatible(val, asg_gc)))
+            want_gc = {"accept": "NotFound", "reject": "Gone"}
+            okrow = len(k_av) == 1 and len(k_gc) == 1 and want_gc.get(k_av[0]) == k_gc[0]
+            rows.append({"latest==NIL": va, "parent==latest": vb, "AddVersion": k_av, "GetChildVersion(no child)": k_gc})
+            rep.ob(rule, ("equivalence", "latest==NIL:%s" % va, "parent==latest:%s" % vb), okrow,
+                   "AddVersion -> %s, GetChildVersion without child -> %s; required: accept<->NotFound, reject<->Gone" % (k_av, k_gc),
+                   sample=rows[-1])
+    rep.extra["decision_table"] = rows
+    rep.exhaustive = True
+    # (iv) unknown client
+    for body in (av, gc):
+        gg = W.gea(body)
+        ti = txn_term_of(W, body)[0][2]
+        cl, gcbb = client_term(W, body, ti)
+        atom = ("VARIANT", cl[1])
+        hit = False
+        for site, term in exits(W, body):
+            if m(call(FROM_RESIDUAL, ("err", ANY)), term) is not None:
+                for val in gg.vals_at(site):
+                    if val.get(atom) == frozenset(["err"]):
+                        hit = True
+        nsc = [t for bb, t in body.calls() if t["callee"].get("def") == "core::option::Option::<T>::ok_or"]
+        rep.ob(rule, (short_fn(body), "iv", "absent-client-is-NoSuchClient"), hit, "a missing client record leads to the NoSuchClient error return", where(body))
+
+
+# =========================================================================== C18
+def c18_ops(rep, W, rule="C18.OPS"):
+    for opn in ("get_child_version", "get_snapshot"):
+        s_readonly_op(rep, W, opn)
+    # add_version: the reject exit has no write/commit before it
+    av = W.op("add_version")
+    g = W.gea(av)
+    wsites = [bb for mth in WD.WRITE_METHODS + (WD.COMMIT_METHOD,) for bb, _ in sites_of(av, WD.tm(mth))]
+    n = 0
+    for site, term in exits(W, av):
+        if av_kind(term) == "reject":
+            n += 1
+            bad = [av.line_of_block(w) for w in wsites if w == site[0] or g.may_follow(w, site[0])]
+            rep.ob(rule, (short_fn(av), "reject-write-free#%d" % n), not bad,
+                   "no write-class or commit call precedes the conflict outcome; preceding write sites at lines %s" % (bad or "none"),
+                   where(av, line=exit_line(av, site)))
+    rep.floor(rule, "add_version reject exits", n, 1)
+    # add_snapshot: every non-error exit either follows set_snapshot (the accept exit) or has no write before it
+    sn = W.op("add_snapshot")
+    g2 = W.gea(sn)
+    ws = [bb for bb, _ in sites_of(sn, WD.tm("set_snapshot"))]
+    others = [bb for mth in ("new_client", "add_version") for bb, _ in sites_of(sn, WD.tm(mth))]
+    rep.ob(rule, (short_fn(sn), "writers"), len(ws) == 1 and not others, "add_snapshot write sites: set_snapshot x%d, others x%d" % (len(ws), len(others)), where(sn))
+    nacc = ndec = 0
+    commits = [bb for bb, _ in sites_of(sn, WD.tm("commit"))]
+    for site, term in exits(W, sn):
+        if is_error_exit(term):
+            continue
+        after = [w for w in ws + commits if g2.may_follow(w, site[0]) or w == site[0]]
+        if after:
+            nacc += 1
+            rep.ob(rule, (short_fn(sn), "accept-exit-through-write#%d" % nacc), all(g2.must_precede(w, site[0]) for w in ws),
+                   "the exit that follows set_snapshot is reached only through it", where(sn, line=exit_line(sn, site)))
+        else:
+            ndec += 1
+            rep.ob(rule, (short_fn(sn), "decline-write-free#%d" % ndec), True, "decline exit with no write-class/commit call on any path to it",
+                   where(sn, line=exit_line(sn, site)))
+    rep.floor(rule, "add_snapshot decline exits", ndec, 4)
+    rep.floor(rule, "add_snapshot accept exits", nacc, 1)
+    # exactly one exit follows the write
+    rep.ob(rule, (short_fn(sn), "single-accept-exit"), nacc == 1, "%d exit(s) follow set_snapshot" % nacc, where(sn))
